@@ -51,7 +51,12 @@ SPEC = {
                   "keep_alive_max_h2_count_partial (at most L+1 when reads carry at most one HEADERS frame) with the negation witness "
                   "keep_alive_max_h2_count_fails_as_is (F47), counted_once_partial / _fails_as_is (pushed streams count twice); "
                   "recycle_iff, recycle_window, recycle_off, markRequest_is_mark, recycle_starts_shutdown, recycled_worker_returns "
-                  "(composition with C15.bounded).",
+                  "(composition with C15.bounded); mark_request_sites_match_source (each protocol counts in _create_stream, the one "
+                  "constructor of streams, which received HEADERS, the HTTP/1.1 request of an Upgrade: h2c connection and pushes all go "
+                  "through - extracted), recycle_over_connections / recycle_h2c_only (terminate iff the requests taken on over ALL "
+                  "connections of the worker, of every kind, exceed the budget).  Whole-worker runs offer the requests over HTTP/1.1 with "
+                  "and without reuse, prior-knowledge HTTP/2, Upgrade: h2c (with and without further streams), WebSocket handshakes and "
+                  "mixes of them sharing one WorkerContext.",
     "level_note": "Trusted: Lean kernel; the models HC/Lib/H11Buf, HC/Proto/H2Lim, HC/Worker/Recycle and the shared HC/Proto/H11 + H11M; "
                   "enforcement inside h11 (byte parser; the incomplete-buffer comparison), hpack (header-list accounting) and h2 (stream "
                   "count, state machine CLOSED after close_connection) is *library behaviour*: modelled from their source, comparators "
@@ -718,6 +723,10 @@ LS = ["recv", "startup_complete", "recv", "shutdown_complete", "return"]
 REQ_GAP = 0.12
 
 
+SEQ_VARIANTS = {"h2c": ["h2c"], "h2c+1": ["h2c+1"], "ws": ["ws"], "h2conns": ["h2"],
+                "mixed": ["h1", "h2c", "h2", "ws", "h2c+1", "h1x2", "h2x2"], "mixed2": ["h2c", "h1", "h2c", "ws"]}
+
+
 def recycle_scenario(worker: str, base: Optional[int], jitter: int, seed: int, variant: str) -> dict:
     """requests are offered strictly one after the other (each after the previous answer, plus a short pause), so the
     number of requests taken on before the listener goes away is exactly the index at which the exit began"""
@@ -733,6 +742,19 @@ def recycle_scenario(worker: str, base: Optional[int], jitter: int, seed: int, v
         for i in range(offered):
             steps += [["get", f"/d/0/{i}"], ["read", 2.0], ["sleep", pause]]
         clients = [{"id": 0, "kind": "h1", "steps": steps}]
+    elif variant in SEQ_VARIANTS:
+        # requests that reach the worker over different kinds of connections (one WorkerContext counts them all): every
+        # request of an `Upgrade: h2c` connection (the HTTP/1.1 request served on stream 1, then ordinary streams), WebSocket
+        # handshakes, prior-knowledge HTTP/2, HTTP/1.1 with and without reuse
+        kinds = SEQ_VARIANTS[variant]
+        n, i = 0, 0
+        while n < offered:
+            k = kinds[i % len(kinds)]
+            steps += [["conn", k, f"/d/0/{i}" if k != "ws" else "/ws"], ["sleep", pause]]
+            n += 2 if k in ("h1x2", "h2x2", "h2c+1") else 1
+            i += 1
+        offered = n
+        clients = [{"id": 0, "kind": "seq", "steps": steps}]
     else:
         steps += [["connect"]]
         for i in range(offered):
@@ -758,12 +780,15 @@ def gen_recycle(ctx: Ctx) -> List[dict]:
                 out.append(recycle_scenario(worker, base, 2, seed0 + 1 + s, "conns" if s % 2 else "one"))
         out.append(recycle_scenario(worker, 1, 0, seed0, "h2"))
         out.append(recycle_scenario(worker, 2, 2, seed0 + 3, "h2"))
+        for base, jitter, variant in ((1, 0, "h2c"), (2, 2, "h2c"), (3, 0, "h2c+1"), (1, 0, "ws"), (2, 0, "h2conns"), (4, 2, "mixed"), (7, 0, "mixed"),
+                                      (3, 0, "mixed2"), (None, 0, "mixed")):
+            out.append(recycle_scenario(worker, base, jitter, seed0 + 7, variant))
     if ctx.thorough:
         for worker in ("asyncio", "trio"):
             for base in (2, 5):
                 for jitter in (1, 3):
                     for s in range(6):
-                        out.append(recycle_scenario(worker, base, jitter, seed0 + 100 + s, ["conns", "one", "h2"][s % 3]))
+                        out.append(recycle_scenario(worker, base, jitter, seed0 + 100 + s, ["conns", "one", "h2", "h2c", "mixed", "mixed2"][s % 6]))
     return out
 
 
